@@ -73,6 +73,65 @@ def _hash(terms):
     return h.hexdigest()[:16]
 
 
+def _forked_check(terms, t1, want_model, inputs, consts):
+    import pickle, select, signal
+    rfd, wfd = os.pipe()
+    pid = os.fork()
+    if pid == 0:
+        try:
+            os.close(rfd)
+            so = z3.Solver()
+            so.set("timeout", int(t1 * 1000))
+            so.add(*terms)
+            r = str(so.check())
+            mdl = None
+            if r == "sat" and want_model:
+                src = inputs if inputs else consts
+                mdl = model_dict(so.model(), list(src.values()) if isinstance(src, dict) else list(src))
+            os.write(wfd, pickle.dumps((r, mdl)))
+        except BaseException as e:
+            try:
+                os.write(wfd, pickle.dumps(("error:%s" % e, None)))
+            except Exception:
+                pass
+        finally:
+            os._exit(0)
+    os.close(wfd)
+    data = b""
+    deadline = time.time() + t1 + 1.5
+    try:
+        while True:
+            left = deadline - time.time()
+            if left <= 0:
+                break
+            rl, _, _ = select.select([rfd], [], [], left)
+            if not rl:
+                break
+            chunk = os.read(rfd, 1 << 20)
+            if not chunk:
+                break
+            data += chunk
+    finally:
+        os.close(rfd)
+        try:
+            os.kill(pid, signal.SIGKILL)
+        except OSError:
+            pass
+        try:
+            os.waitpid(pid, 0)
+        except OSError:
+            pass
+    if not data:
+        return "unknown", None
+    try:
+        r, mdl = pickle.loads(data)
+    except Exception:
+        return "unknown", None
+    if isinstance(r, str) and r.startswith("error:"):
+        raise HarnessError("z3 child failed: %s" % r)
+    return r, mdl
+
+
 def check(terms, timeout=20.0, want_model=True, inputs=None, portfolio=True, note=None):
     """returns dict(verdict, model, engine, time, hash, size)"""
     t0 = time.time()
@@ -85,17 +144,14 @@ def check(terms, timeout=20.0, want_model=True, inputs=None, portfolio=True, not
         STATS["nontrivial_hashes"].add(hsh)
     res = {"verdict": "unknown", "model": None, "engine": None, "hash": hsh,
            "size": sum(len(t.sexpr()) for t in terms), "nconsts": len(consts)}
-    # 1. in-process z3 (default strategy)
-    so = z3.Solver()
+    # 1. z3 5.1 through the Python API (default strategy), run in a forked child so that the time limit is hard:
+    #    z3's own timeout is cooperative and was observed to overshoot by minutes inside nlsat
     t1 = timeout if not portfolio else min(timeout, FIRST_STAGE_S)
-    so.set("timeout", int(t1 * 1000))
-    so.add(*terms)
-    r = str(so.check())
+    r, mdl = _forked_check(terms, t1, want_model, inputs, consts)
     if r in ("sat", "unsat"):
         res["verdict"], res["engine"] = r, "z3-%s(api)" % z3.get_version_string()
         if r == "sat" and want_model:
-            m = so.model()
-            res["model"] = model_dict(m, list((inputs or consts).values()) if isinstance(inputs or consts, dict) else inputs)
+            res["model"] = mdl
     elif portfolio:
         ext = external(terms, timeout, list(consts.values()) if want_model else [])
         res.update(ext)
@@ -225,11 +281,8 @@ def external(terms, timeout, consts):
 
 
 def quick_feasible(terms, timeout=3.0):
-    so = z3.Solver()
-    so.set("timeout", int(timeout * 1000))
-    so.add(*terms)
     STATS["queries"] += 1
     t0 = time.time()
-    r = str(so.check())
+    r, _ = _forked_check(list(terms), timeout, False, None, {})
     STATS["solver_s"] += time.time() - t0
     return r
